@@ -269,7 +269,8 @@ func searchPrecompiles(g *gen, n int) (evals int) {
 }
 
 func checkRun(kind string, s spec, res string, dur time.Duration) {
-	replay := map[string]interface{}{"kind": s.kind, "cfg": s.cfg, "gas": s.gas, "value": s.value.Text(16), "code": hexTok(s.code), "input": hexTok(s.input), "aux": hexTok(s.aux), "observed": res}
+	replay := map[string]interface{}{"kind": s.kind, "cfg": s.cfg, "gas": s.gas, "value": s.value.Text(16), "code": hexTok(s.code), "input": hexTok(s.input), "aux": hexTok(s.aux), "aux2": hexTok(s.aux2), "observed": res,
+		"corpus_line": fmt.Sprintf("C %d %d %s %s %s %s %s", s.cfg, s.gas, hexTok(s.value.Bytes()), hexTok(s.code), hexTok(s.input), hexTok(s.aux), hexTok(s.aux2))}
 	if strings.HasPrefix(res, "PANIC") {
 		report(panicKey(res), "running "+kind+" program panicked: "+res, replay)
 		return
@@ -345,9 +346,18 @@ func searchMain(a map[string]string) {
 		if r.Chance(1, 8) {
 			value = big.NewInt(int64(r.Intn(1000)))
 		}
-		var code, input, aux []byte
+		var code, input, aux, aux2 []byte
 		kind := ""
-		switch k := r.Intn(20); {
+		switch k := r.Intn(23); {
+		case k >= 20:
+			kind = "nested-static"
+			code, input, aux, aux2 = g.progNestedStatic()
+			if gas < 300000 {
+				gas = 3000000
+			}
+			if r.Chance(1, 2) {
+				cfg |= 2
+			}
 		case k < 5:
 			kind = "one-op"
 			code, input, aux = g.progOneOp()
@@ -377,7 +387,7 @@ func searchMain(a map[string]string) {
 		if r.Chance(1, 10) {
 			runSpec("top-create", spec{kind: "K", cfg: cfg, gas: gas, value: value, code: code, aux: aux})
 		} else {
-			runSpec(kind, spec{kind: "C", cfg: cfg, gas: gas, value: value, code: code, input: input, aux: aux, to: target})
+			runSpec(kind, spec{kind: "C", cfg: cfg, gas: gas, value: value, code: code, input: input, aux: aux, aux2: aux2, to: target})
 		}
 	}
 	// the two hard limits, tested directly
